@@ -19,7 +19,8 @@ RULE = (
     "deployment (a symbolic link between two local deployments; two PRIMARY copies would need a remote site, which "
     "this harness does not have) - with 1..2 fail-stops that destroy the failing job's directories (the staged copy) "
     "only, and a seeded latency for every existence probe per site (seam on LocalStreamFlowPath.exists): the producer "
-    "must not run again. non-trivial = a "
+    "must not run again. Outputs family (enumerated_cases): pipelines whose jobs emit a directory and/or whose outputs are "
+    "processed by a UnionCommandOutputProcessor, with 1..2 soft or fail-stop failures of the jobs' own data. non-trivial = a "
     "fault fired; distinct = loop digests"
 )
 COMPONENTS = _c16.COMPONENTS
@@ -65,7 +66,10 @@ def check_executions(sim, res, shape, faults, prop="C18", per_loss_bound=False):
 def cases(tier):
     # replica family: a pipeline whose later steps run on a second deployment with read-only staging, so that an upstream
     # output has a second, related data location (the staged copy); a fail-stop destroys the staged copy only
-    return [{"family": "replica"} for _ in range(200 if tier == "quick" else 8000)]
+    n = 200 if tier == "quick" else 8000
+    # outputs family: pipelines whose jobs emit a DIRECTORY, or whose outputs go through a UnionCommandOutputProcessor (what the
+    # CWL translator installs for union output types): a failing job downstream must not re-run producers whose output stayed
+    return [{"family": "replica"} for _ in range(n)] + [{"family": "outputs"} for _ in range(n)]
 
 
 def run(sim, params):
@@ -92,6 +96,15 @@ def run(sim, params):
         def restore():
             rp.LocalStreamFlowPath.exists = orig_exists
         sim.probe("replica_family")
+    elif params.get("family") == "outputs":
+        shape = {"kind": "pipe", "k": 2 + t.draw(3, "outputs.len")}
+        which = t.draw(3, "outputs.which")
+        if which in (0, 2):
+            shape["out"] = "dir"
+        if which in (1, 2):
+            shape["union"] = True
+        faults = S.gen_faults(t, shape, max_entries=2, allow_ancestors=False, max_count=2)
+        sim.probe("outputs_family")
     else:
         shape = S.gen_shape(t)
         faults = S.gen_faults(t, shape, max_entries=3, allow_ancestors=True, max_count=2)
